@@ -70,6 +70,100 @@ def strip_cast(t):
     return t
 
 
+def lane_step_factory(u, eng, host_big):
+    """-> lane_step(p, by_h, octets, ptr_elem): one iteration that folds k octets into a wide accumulator without calling
+    crc16_octet is decided in the bit domain: with the accumulator's bits above 15 zero at the loop head (they are at
+    entry: the seed is a uint16_t; and every round has to leave them zero again), the value after the round is exactly
+    the definition's fold of the octets loaded, in SOME order of those octets - that order is returned for the position
+    rule.  Returns (accumulator havoc, [octet offsets fed, in order], new accumulator term), a str (violation), or None
+    (not an accumulator update this reads)."""
+    tabs = {}
+    for nm, g in u.globals.items():
+        vals = table_values(u, nm)
+        if vals and len(vals) == 256:
+            tabs[nm] = vals
+
+    def lane_step(p, by_h, octets, ptr_elem):
+        cands = []
+        for h, (k_, pre) in by_h.items():
+            v = strip_cast(p.mem.get(k_, h))
+            if v != h and not (eng.pointer(h) or '*' in (eng.types.get(k_) or '')):
+                try:
+                    d = L(v) - L(h)
+                    if d.is_const():
+                        continue                      # a counter
+                except Exception:                     # noqa: BLE001 - not linear: the accumulator
+                    pass
+                cands.append((h, k_, p.mem.get(k_, h)))
+        if len(cands) != 1:
+            return None
+        h_acc, k_acc, newv = cands[0]
+        ti = bitdom.type_info(bitdom.resolve_typedefs(u, eng.types.get(k_acc) or eng.types.get(h_acc) or ''))
+        W = ti[0] if ti and len(ti) == 3 and isinstance(ti[0], int) else 64
+        loads = []
+        for t in sym.subterms(newv):
+            if t[0] in ('i', '*') and not (t[0] == 'i' and t[1][0] == '&' and t[1][1][0] == 'v' and t[1][1][1] in tabs) and t not in loads:
+                loads.append(t)
+        if not loads:
+            return None
+        atoms = {h_acc: ('acc', W, False)}
+        widths = {}
+        for i, ld in enumerate(loads):
+            w = ptr_elem(ld[1])
+            widths[ld] = w
+            atoms[ld] = ('e%d' % i, 8 * w, False)
+        try:
+            bv = bitdom.term_bits(newv, atoms, max(W, 64), tabs, eng.optype).convert(W, False)
+        except Unsupported as ex:
+            return None if 'outside the bit domain' in str(ex) else ('the accumulator update %s is outside the bit domain: %s' % (fmt(newv)[:120], ex))
+        # substitute: accumulator bits above 15 are zero at the head
+        def head0(b):
+            if b in (ZERO, bitdom.ONE) or b is None:
+                return b
+            c, syms = b
+            return (c, frozenset(x for x in syms if not (x.startswith('acc.') and int(x.split('.')[1]) >= 16)))
+        bits = [head0(b) for b in bv.bits]
+        if any(b is None for b in bits):
+            return 'the accumulator update %s has bits that are not a XOR of input bits (a carry, a sign extension of a data-dependent value)' % fmt(newv)[:160]
+        # candidate octet orders: per element its octets in memory order; elements in every order (small k)
+        import itertools
+        def mem_octets(i, ld):
+            w = widths[ld]
+            lanes = [(w - 1 - byte) if host_big else byte for byte in range(w)]
+            return [(ld, byte, ['e%d.%d' % (i, 8 * vl + b) for b in range(8)]) for byte, vl in enumerate(lanes)]
+        per = [mem_octets(i, ld) for i, ld in enumerate(loads)]
+        for order in itertools.permutations(range(len(loads))):
+            seq = [o for i in order for o in per[i]]
+            crc = BV([(0, frozenset(['acc.%d' % b])) for b in range(16)], False)
+            for ld, byte, names in seq:
+                crc = BV(ref_step_symbolic(crc, BV([(0, frozenset([nm])) for nm in names], False)), False)
+            if list(bits[:16]) == list(crc.bits):
+                up = [i for i, b in enumerate(bits[16:], 16) if b != ZERO]
+                if up:
+                    return ('after a round the accumulator\'s bit %d is not zero (%s): the next round folds it into the checksum - with a %d-bit accumulator a data word '
+                            'that is shifted as an int is sign-extended into the upper half' % (up[0], 'a XOR of input bits' if bits[up[0]] not in (ZERO, bitdom.ONE) else 'constant', W))
+                at = []
+                for ld, byte, names in seq:
+                    addr = sym.add(ld[1], ld[2]) if ld[0] == 'i' else ld[1]
+                    at.append(octets(addr) + byte)
+                return (h_acc, at, strip_cast(newv))
+        return ('an iteration folds %d octet(s) into the accumulator by a step of its own (%s), and the result is not the CRC-16/ARC fold of those octets in any order of the '
+                'elements loaded (bit domain: low 16 bits differ from the definition, assuming a clean accumulator at the loop head)' % (sum(widths.values()), fmt(newv)[:140]))
+    def lane_tail(term, h_acc, octets, ptr_elem):
+        """the same decision for a value computed from the accumulator h_acc behind the loop -> [octet offsets] | str | None"""
+        class _P:
+            pass
+        p_ = _P()
+        key = ('v', '#tail')
+        p_.mem = {key: term}
+        r = lane_step(p_, {h_acc: (key, None)}, octets, ptr_elem)
+        if r is None or isinstance(r, str):
+            return r
+        return r[1]
+    lane_step.tail = lane_tail
+    return lane_step
+
+
 def fold_check(ck, u, eng, name, host_big, tag, proved):
     """Decides `name(crc, p, n) == left fold of crc16_octet over the first n*unit octets at p, in
     address order` as an inductive invariant over the path engine's loop abstraction:
@@ -126,6 +220,8 @@ def fold_check(ck, u, eng, name, host_big, tag, proved):
             return octets_from_buffer(t[1]) - L(t[2]) * ptr_elem(t[1])
         raise Shape('pointer not derived from the buffer parameter: %s' % fmt(t))
 
+    lane_step = lane_step_factory(u, eng, host_big)
+    lane_tail = lane_step.tail
     KNOWN = {}
 
     def folded(t, facts):
@@ -262,21 +358,35 @@ def fold_check(ck, u, eng, name, host_big, tag, proved):
                 other = [e for e in eff if e.kind in ('call', 'icall') and e.name != 'crc16_octet']
                 if other:
                     raise Shape('call to %s inside the loop' % other[0].name)
+                lane_proof = None
                 if not steps:
                     moved = [fmt(k_) for h, (k_, pre) in by_h.items() if strip_cast(p.mem.get(k_, h)) != h]
-                    if moved:
+                    if not moved:
+                        continue
+                    # no call of the step function - but the accumulator may be folded by a step of its own (several
+                    # octets per round in a wider register): decided in the bit domain against the definition
+                    lane_proof = lane_step(p, by_h, octets, ptr_elem)
+                    if isinstance(lane_proof, str):
+                        return lane_proof
+                    if lane_proof is None:
                         bad = ('an iteration (%s) changes %s without feeding an octet to crc16_octet: octets are skipped'
                                % (p.describe(2), ', '.join(sorted(moved))))
                         return bad
-                    continue
-                ha = strip_cast(steps[0].args[0])
-                if ha not in by_h or (h_acc is not None and ha != h_acc):
-                    bad = 'first step of an iteration (%s) is seeded with %s, not with the running accumulator' % (steps[0].where(), fmt(steps[0].args[0]))
-                    return bad
-                h_acc = ha
-                prev = h_acc
-                at = []
-                for e in steps:
+                if lane_proof is not None:
+                    ha, at, prev = lane_proof
+                    if h_acc is not None and ha != h_acc:
+                        return 'iterations fold into different accumulators'
+                    h_acc = ha
+                    steps = [type('E', (), {'where': staticmethod(lambda p=p: cast.where(p.loops[level][0]))})()]
+                else:
+                    ha = strip_cast(steps[0].args[0])
+                    if ha not in by_h or (h_acc is not None and ha != h_acc):
+                        bad = 'first step of an iteration (%s) is seeded with %s, not with the running accumulator' % (steps[0].where(), fmt(steps[0].args[0]))
+                        return bad
+                    h_acc = ha
+                    prev = h_acc
+                    at = []
+                for e in (steps if lane_proof is None else []):
                     if strip_cast(e.args[0]) != prev:
                         bad = 'step at %s is seeded with %s, not with the previous result' % (e.where(), fmt(e.args[0]))
                         return bad
@@ -353,8 +463,9 @@ def fold_check(ck, u, eng, name, host_big, tag, proved):
                 return bad
             # ---- auxiliary invariants (discovered, then proved inductive): Pos + v*cunit == total for a
             #      countdown variable v, and Pos <= total -------------------------------------------------
-            cands = [('%s + %d*%s == %s' % (pos, cunit, fmt(by_h[h][0]), total), pos + Lin.atom(h) * cunit - total, True)
-                     for h in sorted(by_h, key=repr) if h != h_acc and ('poff', h) not in pre_m]
+            # (a countdown in elements with several elements folded per round counts `unit` octets each, not `cunit`)
+            cands = [('%s + %d*%s == %s' % (pos, m_, fmt(by_h[h][0]), total), pos + Lin.atom(h) * m_ - total, True)
+                     for h in sorted(by_h, key=repr) if h != h_acc and ('poff', h) not in pre_m for m_ in sorted({cunit, unit})]
             cands.append(('%s <= %s' % (pos, total), pos - total, False))
             invs = []
             for label, g, is_eq in cands:
@@ -389,10 +500,24 @@ def fold_check(ck, u, eng, name, host_big, tag, proved):
             if bad:
                 return bad
             for p in exits:
-                if strip_cast(p.ret) != h_acc:
-                    bad = 'returns %s, which is not the loop accumulator' % fmt(p.ret)
-                    return bad
                 facts = eng.path_facts(p)
+                if strip_cast(p.ret) != h_acc:
+                    # a tail folded behind the loop in straight-line code (the element the last round left over): the
+                    # returned value is decided like a round - against the definition, over the accumulator and the
+                    # octets it loads, which have to be the next ones in address order
+                    tail = lane_tail(p.ret, h_acc, octets, ptr_elem)
+                    if isinstance(tail, str):
+                        return tail
+                    if tail is None:
+                        bad = 'returns %s, which is not the loop accumulator' % fmt(p.ret)
+                        return bad
+                    for i_, a_ in enumerate(tail):
+                        if not same(facts + hyp, a_ - pos - i_):
+                            return ('the tail behind the loop folds the octets at %s; the loop had reached %s' % (', '.join(str(x) for x in tail), pos))
+                    if not same(facts + hyp, pos + len(tail) - total):
+                        return ('the loop is left (%s) with %s octets folded and %d more are folded behind it; not provably all %s octets of the buffer '
+                                '(invariants available: %s)' % (p.describe(3), pos, len(tail), total, '; '.join(l for l, _, _ in invs) or 'none'))
+                    continue
                 if not same(facts + hyp, pos - total):
                     bad = ('the loop is left (%s) with %s octets folded; not provably all %s octets of the buffer '
                            '(invariants available: %s)' % (p.describe(3), pos, total, '; '.join(l for l, _, _ in invs) or 'none'))
